@@ -29,10 +29,11 @@ type Req struct {
 }
 
 type Case struct {
-	Docs       []model.Doc `json:"docs"`
-	Steps      []Step      `json:"steps"`
-	Concurrent bool        `json:"concurrent,omitempty"` // send consecutive non-rotating bulks concurrently
-	Reqs       []Req       `json:"reqs"`
+	Docs         []model.Doc `json:"docs"`
+	Steps        []Step      `json:"steps"`
+	Concurrent   bool        `json:"concurrent,omitempty"`    // send consecutive non-rotating bulks concurrently
+	ReplayActive bool        `json:"replay_active,omitempty"` // restart once before the final seal
+	Reqs         []Req       `json:"reqs"`
 }
 
 func genCase(t *rapid.T) Case {
@@ -106,7 +107,8 @@ func genCase(t *rapid.T) Case {
 		}
 		c.Steps = append(c.Steps, st)
 	}
-	c.Concurrent = evid.Thorough() && rapid.IntRange(0, 3).Draw(t, "concurrent") == 3
+	c.Concurrent = rapid.IntRange(0, 3).Draw(t, "concurrent") == 3
+	c.ReplayActive = rapid.IntRange(0, 2).Draw(t, "replayactive") == 2
 	var corpus model.Corpus
 	for _, d := range delivered {
 		corpus = append(corpus, c.Docs[d])
@@ -315,6 +317,19 @@ func runCase(c Case) (evid.Result, error) {
 	}
 	if err := check("ingested"); err != nil {
 		return res, err
+	}
+	// restart while the last fraction is still active: replay feeds all its bulks to the
+	// index workers at once, so sequential repeats become concurrent ones
+	if c.ReplayActive {
+		st1, err := st.Restart(nil)
+		if err != nil {
+			return res, evid.Failf("restart-failed", "%v", err)
+		}
+		st = st1
+		if err := check("replayed-active"); err != nil {
+			return res, err
+		}
+		res.Labels = append(res.Labels, "restart-while-active")
 	}
 	st.Seal()
 	if err := check("sealed"); err != nil {
